@@ -446,7 +446,19 @@ impl<'a> World<'a> {
         let st = s.raw_stakes();
         let rows: Vec<J> = keys.iter().map(|k| json!({"pk": hex::encode(k.0), "votes": js::limbs_u128(st.votes(epoch, *k))})).collect();
         let obs = self.obs_s(&s);
-        self.emit(json!({"ev": "votes", "preid": sid, "pre": obs, "epoch": epoch, "rows": rows, "total": js::limbs_u128(st.total_votes(epoch)), "res": "ok"}));
+        // the TIP-911 view of the same stake set: totals of this and the next epoch, stakes ordered by size then transaction hash,
+        // and a dense Merkle tree whose k-th leaf commits to the first k+1 stakes
+        let t911 = st.post_tip911(epoch);
+        let tree = t911.calculate_merkle();
+        let mut proofs_ok = true;
+        for k in 0..t911.stakes.len() {
+            let leaf = novasmt::hash_data(&stdcode::serialize(&(t911.current_total, t911.next_total, t911.stakes[..=k].to_vec())).unwrap());
+            proofs_ok &= novasmt::dense::verify_dense(&tree.proof(k), tree.root_hash(), k, leaf);
+        }
+        let t911j = json!({"cur": js::limbs_u128(t911.current_total.0), "next": js::limbs_u128(t911.next_total.0),
+                           "stakes": t911.stakes.iter().map(|(k, sd)| json!({"tx": lj::hx(&k.0), "syms": js::limbs_u128(sd.syms_staked.0)})).collect::<Vec<_>>(),
+                           "proofsOk": proofs_ok});
+        self.emit(json!({"ev": "votes", "preid": sid, "pre": obs, "epoch": epoch, "rows": rows, "total": js::limbs_u128(st.total_votes(epoch)), "tip911": t911j, "res": "ok"}));
     }
 
     /// from_block(to_block, raw_stakes, db): the restarted twin of sealed state `sid`
